@@ -294,6 +294,14 @@ class C03Case:
                         if ok and f.endswith('.o') and \
                            g.steps[ok]['reads'] & own:
                             self.must_edges.setdefault(ok, set()).update(hdr)
+        # the submodule's static library names the nested submodule's
+        # library in libs=: ar never reads it, the script declares it
+        inner = {f for f in g.producer
+                 if os.path.basename(f) == 'libinnerlib.a'}
+        if inner:
+            for f, k in g.producer.items():
+                if os.path.basename(f) == 'libsublib.a':
+                    self.declared.setdefault(k, set()).update(inner)
         for k, fs in self.must_edges.items():
             self.declared.setdefault(k, set()).update(fs)
         self.always = set()
